@@ -15,7 +15,7 @@ import scipy.fft
 import astropy.units as u
 import dask.array as da
 
-from pbmc import bind_repo, report, factory
+from pbmc import bind_repo, report, factory, history
 from pbmc.exact import time_days as T, hz
 from pbmc.oracles import dft
 
@@ -264,6 +264,10 @@ def stft_case(case, res):
             srx = hz(z.sample_rate)
             sub = {"nperseg": P, "trailing": list(trailing)}
             res.state(("stft", nchan, align, N, P, trailing))
+            if P in (2, N):
+                history.reuse_buffer(res, case, z, [(f"stft nperseg={P}", lambda q_: pb.contrib.stft(q_, nperseg=P)),
+                                                    (f"stft+istft nperseg={P}", lambda q_: pb.contrib.istft(pb.contrib.stft(q_, nperseg=P), nperseg=P))],
+                                     "stft")
             try:
                 s = pb.contrib.stft(z, nperseg=P)
             except Exception as e:
@@ -377,7 +381,7 @@ def check_case(case):
 def main(argv=None):
     return report.run_check(
         PID, gen_cases=gen_cases, check_case=check_case, describe=describe,
-        required_hits=["dask lazy result", "reference raises: pb raises too", "unknown name -> AttributeError",
+        required_hits=["buffer overwritten between calls", "dask lazy result", "reference raises: pb raises too", "unknown name -> AttributeError",
                        "tone under the right label", "truncated tail", "odd nperseg", "nperseg == length",
                        "non-center alignment on even nchan"],
         assumptions=["scipy.fft.<name> is the statement's reference; numpy.fft and the long-double DFT definition are independent "
